@@ -2,7 +2,7 @@
 import os, sys
 sys.path.insert(0, os.path.dirname(__file__))
 from stream_jobs import JOBS as _SJ, LEAN_MODULES as _SM, RULE as _SR, ASSUMPTIONS as _SA
-from funnel_common import arbiter_job, funnel_job, funnel_conc_job, funnel_shared_job, FUNNEL_RULE, FUNNEL_ASSUME
+from funnel_common import arbiter_job, funnel_job, funnel_conc_job, funnel_shared_job, FUNNEL_RULE, FUNNEL_ASSUME, tree_jobs, TREE_MODULES, TREE_RULE, TREE_ASSUME
 
 PROP = {
     "lean_modules": ["ConduitModel.Props.C07", "ConduitModel.Facts.C07", "ConduitModel.Props.ArbiterProps", "ConduitModel.Props.WorkerProps"],
@@ -30,6 +30,12 @@ PROP["rule"] += " || v1: " + _SR
 PROP["assumptions"] = list(PROP["assumptions"]) + _SA
 
 PROP["lean_modules"].append("ConduitModel.Props.MonSound")
+
+# the trees the arch-v2 service builds are the trees Props/MonSound covers (Props/TreeShape, Props/TreeBuilt)
+PROP["jobs"] += tree_jobs()
+PROP["lean_modules"] += TREE_MODULES
+PROP["rule"] += TREE_RULE
+PROP["assumptions"] = list(PROP["assumptions"]) + TREE_ASSUME
 
 META = {
     "text": "Lean 4 theorems, for every window size, threshold, outcome history and batch partition: the v1 ring buffer refines the abstract 'last size outcomes' specification (C07_window_refines), v2 batches decide exactly as v1 record-by-record (C07_v1_v2_same_decisions), size 0 removes the limit, threshold 0 tolerates none, refusal is sticky; under fan-out every position is released at most once and a nack vote on a non-terminal position wins (C07_ma_nack_once, C07_ma_nack_wins). Tied to the real dlqWindow of both engines by differential runs, to the API's config guards by regenerated facts, and the pipeline-level clauses (DLQ exactly once, ack only after confirmed DLQ write, DLQ in source order) by the C07 monitor on funnel traces. v2 worker level: C07_nack_log_shape, _dlq_then_ack, _failed_dlq_write_never_acks, _window_refusal_stops, _dlq_record_is_original (all states, scripts, windows). v1: C07_v1_dlq_once_in_source_order, _dlq_then_ack, _failed_dlq_write_never_acks, _rejected_unacked for the product model.",
